@@ -33,7 +33,7 @@ ASSUMPTIONS = ["Schema.rule_tests is never assigned by the library and is part o
 NSHARDS = 16
 TIME_CAP = {"quick": 150, "thorough": 600}
 
-OPS = ["validate", "validate", "test", "filter", "get", "get_paths"]
+OPS = ["validate", "validate", "test", "filter", "get", "get_paths", "ctest"]
 
 
 def _schema_terms(rng, docs, tier):
@@ -191,6 +191,8 @@ def result_fp(op, out):
                 canon(v.data.get_original()))
     if op == "filter":
         return ("fd", tuple(v.result), canon(v.data), canon(v.keys))
+    if op == "ctest":
+        return ("ct", tuple(v))
     return ("get", canon(v))
 
 
@@ -202,6 +204,20 @@ def do(op, schema, ri, doc):
         return call(rule.test, doc)
     if op == "filter":
         return call(rule.condition.filter, doc)
+    if op == "ctest":
+        # the single-datum entry point, item by item (typed twins 1 / 1.0 / True follow one another in many documents)
+        raw = doc.get_original() if hasattr(doc, "get_original") else doc
+        items = list(raw.values()) if type(raw) is dict else list(raw)
+
+        def each():
+            out = []
+            for x in items[:12] + [1, True, 1.0, 0, False, "1"]:
+                try:
+                    out.append(bool(rule.condition.test(x)))
+                except (TypeError, NotImplementedError, ValueError) as e:
+                    out.append(type(e).__name__)
+            return out
+        return call(each)
     if op == "get":
         return call(rule.path.get_data, doc)
     return call(rule.path.get_data, doc, True)
@@ -232,6 +248,11 @@ def run(case, ctx):
         ctx.violate(f"C08/construct:{schemas.type}", f"{schemas!r}")
         return
     docs = [M.deep_copy(d) for d in docs_t]
+    # (in some sequential histories the caller keeps ONE Data wrapper per document and hands that to every call)
+    wrap = (not threaded) and len(repr(docs_t)) % 3 == 0
+    wrappers = [valida.Data(d) for d in docs] if wrap else None
+    if wrap:
+        ctx.count("histories-with-shared-Data-wrappers")
     fp_s = [canon(s) for s in schemas]
     fp_d = [canon(d) for d in docs]
     mon.TRACER.clear()
@@ -242,7 +263,7 @@ def run(case, ctx):
 
     def one(op, si, ri, di, tag):
         want = fresh[(op, si, ri, di)] if threaded else fresh_result(op, si, ri, di)
-        out = do(op, schemas[si], ri, docs[di])
+        out = do(op, schemas[si], ri, wrappers[di] if wrappers and op in ("validate", "test", "ctest") else docs[di])
         fpv = result_fp(op, out)
         if fpv != want:
             mismatches.append((tag, op, si, ri, di, fpv, want))
@@ -293,6 +314,8 @@ def run(case, ctx):
                 if not docs[di]:
                     docs[di], ref_docs[di] = {"refilled": 1}, {"refilled": 1}
                 fp_d[di] = canon(docs[di])
+                if wrappers:
+                    wrappers[di] = valida.Data(docs[di])  # (a wrapper is a snapshot of the top level: the caller wraps again)
                 ctx.count("in-place-document-edits")
                 continue
             op, si, ri, di = step
